@@ -2,7 +2,7 @@
    TableMaintainer over a prepared routing table, on a network that answers questionable-node pings for a
    chosen set of contacts and never answers find_node.
 
-     mpass <idx> root=<hex20> nosec=<0|1> nodes=<node>,<node>... answers=<ans>,<ans>... fanswers=<ans>,...
+     mpass <idx> root=<hex20> nosec=<0|1> booted=<0|1> nodes=<node>,<node>... answers=<ans>,<ans>... fanswers=<ans>,...
         => boot:<addrs> [ping:<i>:<addrs>] [refresh:<i>:<addrs>] ... break:<i>|done after:<entry>;<entry>...
        <node>  = slot/idhex/iphex/port/query-age-ns/response-age-ns/failed/class   (age -1: never; class g|q|b as the
                  implementation classifies the entry: checked against the model's classification first)
@@ -49,9 +49,10 @@ let () =
       let fans = List.map (fun t -> match split_on '/' t with
           | [id; ip; port] -> (n_of_hex id, addr_key { ip = bytes_of_hex ip; port = n_of_dec port })
           | _ -> failwith ("mpass fanswer " ^ t)) (lst (g "fanswers")) in
+      let booted = g "booted" = "1" in
       if !bad_class <> "" then "REJECT class-differs " ^ !bad_class
       else begin
-        let (phases, final) = rm_pass c now_ns answering fans nodes in
+        let (phases, final) = rm_pass c now_ns booted answering fans nodes in
         let ptoks = List.filter_map (fun p ->
             let (tag, (i, l)) = rm_phase_view p in
             match int_of_n tag with
@@ -62,6 +63,6 @@ let () =
         let after = List.sort compare (List.map (fun n ->
             Printf.sprintf "%s/%s/%s/%s" (hex20_of_n (rm_node_id n)) (addr_tok n) (cls_tok c now_ns n)
               (tok_of_bool (rm_node_failed n))) final) in
-        String.concat " " (("boot:" ^ set_tok (rm_boot c nodes)) :: ptoks @ ["after:" ^ (if after = [] then "-" else String.concat ";" after)])
+        String.concat " " (("boot:" ^ set_tok (rm_boot_asked c booted nodes)) :: ptoks @ ["after:" ^ (if after = [] then "-" else String.concat ";" after)])
       end
     | _ -> "?")
